@@ -79,6 +79,18 @@ def Mgr.createEpoch (s : Mgr) (now : Nat) : Res (Mgr × List (Nat × Ep)) :=
     let e : Ep := { id := s.cur.id + 1, start := s.cur.start + s.cfg.duration }
     .ok ({ s with cur := e }, s.hooks.map (fun h => (h, e)))
 
+/-- `queries::query_epoch(id)`: the current epoch as stored; any other id is answered by arithmetic on the
+    CURRENT epoch and the CURRENT duration — `start − duration · (current id ⊖ id)` (`⊖` saturating: a
+    future id gets the current start), with the u64 product and `Timestamp::minus_nanos` both panicking
+    (overflow checks are on) when they do not fit -/
+def Mgr.queryEpoch (s : Mgr) (id : Nat) : Res Ep :=
+  if s.cur.id = id then .ok s.cur
+  else
+    let diff := s.cur.id - id
+    if U64MAX < s.cfg.duration * diff then .panic
+    else if s.cur.start < s.cfg.duration * diff then .panic
+    else .ok { id := id, start := s.cur.start - s.cfg.duration * diff }
+
 /-- operations of the manager -/
 inductive MOp where
   | create
